@@ -15,6 +15,7 @@ import (
 	"sync"
 	"time"
 
+	"github.com/pingcap/kvproto/pkg/pdpb"
 	"github.com/pingcap/log"
 	"github.com/tikv/pd/pkg/typeutil"
 	"github.com/tikv/pd/server/config"
@@ -1132,6 +1133,109 @@ func delayedWindowWriteProbe(e *etcdx.Etcd, admin *clientv3.Client, root string,
 	}
 }
 
+// reelectedDuringSaveProbe: the allocator is always taken from the manager the way the daemon and the request path do. The
+// periodic update of term 1 has its window write held back inside etcd's client; the member loses the leadership (group
+// reset, ResetLeader) and wins the next election again - same member value, so the late write still passes the leader
+// guard. The new term's Initialize, timestamps granted in the new term and the late write then race: whatever order the code
+// allows, the stored window never goes back and every granted timestamp stays below it once the writes have landed.
+func reelectedDuringSaveProbe(e *etcdx.Etcd, admin *clientv3.Client, root string, R *res.Result, prop string) {
+	w := &world{e: e, admin: admin, root: root}
+	defer e.CloseFrom(e.Mark())
+	w.mems = append(w.mems, w.newMember(0))
+	a := w.mems[0]
+	cur := func() tso.Allocator {
+		x, err := a.am.GetAllocator(tso.GlobalDCLocation)
+		if err != nil {
+			panic(err)
+		}
+		return x
+	}
+	if err := a.m.CampaignLeader(60); err != nil {
+		return
+	}
+	if err := cur().Initialize(0); err != nil {
+		return
+	}
+	defer func() { a.am.ResetAllocatorGroup(tso.GlobalDCLocation) }()
+	a.ctl.Filter = func(ops []clientv3.Op) bool {
+		for _, o := range ops {
+			if o.IsPut() && strings.HasSuffix(string(o.KeyBytes()), "/timestamp") {
+				return true
+			}
+		}
+		return false
+	}
+	defer func() { a.ctl.Filter = nil; a.ctl.SetNext(etcdx.Pass) }()
+	for round := 0; round < 6; round++ {
+		if _, err := cur().GenerateTSO(1); err != nil {
+			return
+		}
+		time.Sleep(saveInterval) // the window is used up: the next update has to save
+		old := cur()
+		a.ctl.SetNext(etcdx.Park)
+		upd := make(chan error, 1)
+		go func() { upd <- w.safe("UpdateTSO", old.UpdateTSO) }()
+		select {
+		case <-a.ctl.Parked():
+		case <-upd:
+			a.ctl.SetNext(etcdx.Pass)
+			continue
+		case <-time.After(5 * time.Second):
+			return
+		}
+		w0 := w.window()
+		// term 1 ends, the same member wins term 2
+		a.am.ResetAllocatorGroup(tso.GlobalDCLocation)
+		a.m.ResetLeader()
+		if err := a.m.CampaignLeader(60); err != nil {
+			a.ctl.Release(etcdx.Pass)
+			<-upd
+			return
+		}
+		ini := make(chan error, 1)
+		go func() { ini <- w.safe("Initialize", func() error { return cur().Initialize(0) }) }()
+		var g *pdpb.Timestamp
+		select {
+		case err := <-ini: // the new term did not wait for the write of the old one
+			if err == nil {
+				if t, err := cur().GenerateTSO(1); err == nil {
+					g = &t
+				}
+			}
+			ini <- err
+		case <-time.After(300 * time.Millisecond): // it waits (one window, one lock): let the old write go first
+		}
+		w1 := w.window()
+		a.ctl.Release(etcdx.Pass)
+		<-upd
+		if err := <-ini; err != nil {
+			return
+		}
+		time.Sleep(50 * time.Millisecond)
+		w2 := w.window()
+		if g == nil {
+			if t, err := cur().GenerateTSO(1); err == nil {
+				g = &t
+			}
+		}
+		R.Count("re-elected-during-save:probed")
+		for _, pr := range [][2]*int64{{w0, w1}, {w1, w2}, {w0, w2}} {
+			if pr[0] != nil && pr[1] != nil && *pr[1] < *pr[0] {
+				R.Violate(prop+":stored-window-decreased:re-elected-while-a-window-write-was-in-flight",
+					fmt.Sprintf("the update of term 1 had its window write held back; the member lost the leadership and won it again; the stored window went from %d to %d", *pr[0], *pr[1]),
+					map[string]interface{}{"before": *pr[0], "after": *pr[1], "scenario": "Elect; Sync; Gen; sleep; UpdateTSO with its window write held back; group reset; ResetLeader; Elect (same member); Sync; write released"})
+				return
+			}
+		}
+		if g != nil && w2 != nil && g.Physical*1e6 >= *w2 {
+			R.Violate(prop+":granted-timestamp-not-below-stored-window:re-elected-while-a-window-write-was-in-flight",
+				fmt.Sprintf("after that history term 2 granted physical %d ms while the stored window is %d ns", g.Physical, *w2),
+				map[string]interface{}{"granted_physical_ms": g.Physical, "window_ns": *w2})
+			return
+		}
+	}
+}
+
 // updateReadRaceCase (run alone, after the workers: it replaces the process-wide logger): the periodic update is stopped
 // right after it read the memory and the clock (a zap core blocks on its "clock offset" line, which also tells the clock
 // reading), a reset into the very millisecond of that reading is accepted and timestamps are granted, then the update
@@ -1748,6 +1852,7 @@ func main() {
 				}
 				overflowRace(e, admin, "/c01/overflow", R, *prop)
 				delayedWindowWriteProbe(e, admin, "/c01/delayed/r", R, *prop)
+				reelectedDuringSaveProbe(e, admin, "/c01/reelected/r", R, *prop)
 				if c, ok := updateReadRaceCase(e, admin, "/c01/updread/r"); ok {
 					results = append(results, &c)
 					R.Count("update-read-race:case")
@@ -1755,9 +1860,17 @@ func main() {
 			}
 			e.Close()
 		}
+		var forward chan func(*res.Result)
+		if *prop == "C01" { // after updateReadRaceCase, which owns the process-wide logger while it runs
+			forward = make(chan func(*res.Result), 1)
+			go func() { forward <- forwardPhase(*prop) }() // in the background: mostly waiting for elections and transfers
+		}
 		lateKeepAliveProbe(R, *prop)
 		localBurstProbe(R, *prop)
 		serverPhase(R, *prop, time.Duration(*serverMs)*time.Millisecond)
+		if forward != nil {
+			(<-forward)(R)
+		}
 	}
 
 	var all []caseRec
